@@ -1,5 +1,6 @@
 import Lean.Data.Json
 import PynguinModel.Model.SubprocessAlign
+import PynguinModel.Model.SubprocessConfig
 /-! Line-protocol driver for C31: one JSON case per line in, one JSON result per line out. -/
 open Lean PynguinModel.SubprocessAlign
 
@@ -41,10 +42,38 @@ structure ExecCase where
   singles : List ReplyJ
   deriving FromJson
 
+deriving instance FromJson for ExecConfig
+
+/-- A `config` case: the parent's configuration, the sizes and bindings of the tests of the batch and,
+per started child in start order (batch first), whether it runs at all (`alive`). -/
+structure ConfigCase where
+  settings : Nat
+  cfg : ExecConfig
+  sizes : List Nat
+  bound : List Bindings
+  alive : List Bool
+  deriving FromJson
+
+structure TimedTestJ where
+  bound : Bindings
+  run : Res
+  probes : ProbesJ
+  size : Nat
+  dur : Nat
+  deriving FromJson
+
+/-- A `timed` case: real (slow) tests whose nominal duration is known; no child crashes. -/
+structure TimedCase where
+  cfg : ExecConfig
+  tests : List TimedTestJ
+  deriving FromJson
+
 inductive Case where
   | fix (stmts : List (Option String)) (trace : Trace) (new : Option Bindings)
   | pickle (res : Res) (probes : ProbesJ)
   | exec (c : ExecCase)
+  | config (c : ConfigCase)
+  | timed (c : TimedCase)
   deriving FromJson
 
 def errJ : Err → Json
@@ -73,6 +102,50 @@ def runExec (c : ExecCase) : Json :=
   | .ok out => Json.mkObj [("ok", toJson out)]
   | .error e => errJ e
 
+def argJ : Arg Nat → Json
+  | .patchRandom g => Json.mkObj [("patchRandom", toJson g)]
+  | .props h => Json.mkObj [("props", toJson h)]
+  | .provider h => Json.mkObj [("provider", toJson h)]
+  | .num n => Json.mkObj [("num", toJson n)]
+  | .observers os => Json.mkObj [("observers", toJson os)]
+  | .tests ts => Json.mkObj [("tests", toJson ts)]
+  | .bindings bs => Json.mkObj [("bindings", toJson bs)]
+  | .conn => Json.str "conn"
+
+def runConfig (c : ConfigCase) : Json :=
+  let n := c.sizes.length
+  let size (i : Nat) : Nat := c.sizes.getD i 0
+  let bind (i : Nat) : Bindings := c.bound.getD i []
+  let ls := launches c.settings c.cfg size bind (fun _ => c.alive.getD 0 false) (List.range n)
+  let one (k : Nat) (l : Launch Nat) : Json :=
+    let child : Json :=
+      if c.alive.getD k false then
+        match childEntry l.args with
+        | none => Json.mkObj [("raises", true)]
+        | some s => Json.mkObj [("settings", toJson s.settings), ("maxT", toJson s.cfg.maxTimeout),
+            ("perStmt", toJson s.cfg.perStatement), ("props", toJson s.cfg.props),
+            ("provider", toJson s.cfg.provider), ("observers", toJson s.cfg.yieldRemote),
+            ("bounds", toJson (s.tests.map (fun t => timeBound s.cfg (size t))))]
+      else Json.null
+    Json.mkObj [("args", Json.arr (l.args.map argJ).toArray), ("poll", toJson l.poll), ("child", child)]
+  Json.mkObj [("launches", Json.arr ((List.range ls.length).zip ls |>.map (fun p => one p.1 p.2)).toArray),
+              ("local", toJson (c.sizes.map (timeBound c.cfg)))]
+
+def runTimed (c : TimedCase) : Json :=
+  let n := c.tests.length
+  let dflt : TimedTestJ := { bound := [], run := timeoutRes, probes := { excs := .bad [], asserts := .bad [], auxOut := [] },
+                             size := 0, dur := 0 }
+  let get (i : Nat) : TimedTestJ := c.tests.getD i dflt
+  let size (i : Nat) : Nat := (get i).size
+  let dur (i : Nat) : Nat := (get i).dur
+  let body (_ _ : Nat) (_ : List String) (i : Nat) : Res := (get i).run
+  let probe (i : Nat) : Probes := (get i).probes.toProbes
+  let bind (i : Nat) : Bindings := (get i).bound
+  let loc := (List.range n).map (execute c.cfg size dur body)
+  match executeMultiple (remoteCfg 1 c.cfg size dur body probe bind (fun _ => .none)) bind (List.range n) with
+  | .ok out => Json.mkObj [("ok", toJson out), ("local", toJson loc)]
+  | .error e => errJ e
+
 def runCase : Case → Json
   | .fix stmts t new =>
     let old := createBinding stmts
@@ -86,6 +159,10 @@ def runCase : Case → Json
     if c.tests.length > 1 && c.singles.length != c.tests.length then
       Json.mkObj [("bad-op", "singles must have one reply per test")]
     else runExec c
+  | .config c =>
+    if c.bound.length != c.sizes.length then Json.mkObj [("bad-op", "one binding dict per test")]
+    else runConfig c
+  | .timed c => runTimed c
 
 partial def loop (h : IO.FS.Stream) : IO Unit := do
   let line ← h.getLine
